@@ -357,4 +357,19 @@ example : (runOps iops hist (abs t0)).cols = [("c", [4, 5, 6]), ("a", [0, 0, 0])
 example : ((trace iops [.create "a" (.scalar 5), .expr ["c", "a", "2", "*", "nosuch", "+", "="]] t0).map
     (fun r => (r.1.toOption.isSome, r.2.dico))) = [(true, [("a", 0)]), (false, [("a", 0)])] := by decide +kernel
 
+/-- `y = 3` (fix 144a468): the number is written to the coordinate of every observation, the call returns,
+the table and the other coordinates are untouched — on the code's table and on the specification table alike -/
+example : ((trace iops [.create "a" (.scalar 5), .expr ["y", "3", "="]] t0).map
+    (fun r => (r.1.toOption.isSome, r.2.dico, r.2.rows, r.2.ys))) =
+    [(true, [("a", 0)], [[5], [5], [5]], [20, 22, 24]), (true, [("a", 0)], [[5], [5], [5]], [3, 3, 3])] := by decide +kernel
+example : ((trace iops [.create "a" (.scalar 5), .expr ["y", "3", "="]] t0).map (fun r => (r.2.xs, r.2.zs, r.2.ts))) =
+    [([10, 11, 12], [30, 33, 36], [1000, 1001, 1002]), ([10, 11, 12], [30, 33, 36], [1000, 1001, 1002])] := by decide +kernel
+example : ((trace iops [.create "a" (.scalar 5), .expr ["y", "3", "="]] (abs t0)).map
+    (fun r => (r.1.toOption.isSome, r.2.cols, r.2.ys))) =
+    [(true, [("a", [5, 5, 5])], [20, 22, 24]), (true, [("a", [5, 5, 5])], [3, 3, 3])] := by decide +kernel
+/-- `x = 2*3`: a right-hand side that folds to a number; `t = 3` still raises (KeyError: `t` is not writable) -/
+example : ((trace iops [.expr ["x", "2", "3", "*", "="], .expr ["t", "3", "="]] t0).map
+    (fun r => (r.1.toOption.isSome, r.2.xs, r.2.ts))) =
+    [(true, [6, 6, 6], [1000, 1001, 1002]), (false, [6, 6, 6], [1000, 1001, 1002])] := by decide +kernel
+
 end TV.C01
